@@ -70,6 +70,12 @@ def gen_descrs(ctx):
 
 def literal_grammar(lits, sub):
     alts = " | ".join(gram.lit(l) for l in lits)
+    if sub == 2:
+        # two within-word expressions of the same shape (they share one table-reading function in the scripts)
+        h = (len(lits) + 1) // 2
+        a, b = lits[:h], lits[h:]
+        b = b + [f"pad{i}" for i in range(len(a) - len(b))]
+        return (f"cmd (pre({' | '.join(gram.lit(l) for l in a)} | {FILLER}) | qre({' | '.join(gram.lit(l) for l in b)} | {FILLER})) next;\n")
     if sub:
         return f"cmd pre({alts} | {FILLER}) next;\n"
     return f"cmd ({alts}) next;\n"
@@ -99,6 +105,9 @@ def check_constants(ctx, drv_requests, shell, kind, expected, script, sub):
             return ("not-inert", "a constant contains an unescaped special character or a dangling escape")
         decoded.append(core.unhexs(a.split()[1]))
     helpers = (["pre", "next", FILLER] if sub else ["next"]) if kind == "lit" else []
+    if kind == "lit" and sub == 2:
+        h = (len(expected) + 1) // 2
+        helpers = ["pre", "qre", "next", FILLER, FILLER] + [f"pad{i}" for i in range(h - (len(expected) - h))]
     want = sorted(expected + helpers)
     if kind == "descr":
         got = sorted(decoded)
@@ -181,7 +190,7 @@ def run_group(ctx, items, kind, sub, shells):
             continue
         script = core.unhex(rec["script"])
         r = check_constants(ctx, None, sh, kind, list(items), script.decode("utf-8", "replace"), sub)
-        if r is None and sh == "bash" and kind == "lit":
+        if r is None and sh == "bash" and kind == "lit" and sub != 2:
             r = bash_exec(ctx, list(items), script, sub)
         if r is not None:
             failures.append((sh, r[0], r[1]))
@@ -221,7 +230,7 @@ def run(ctx, proof):
                         text2 = text
                 else:
                     text2 = text
-                kindname = f"{sh}:{'literal' if kind == 'lit' else 'description'}{':subword' if sub else ''}:{what}"
+                kindname = f"{sh}:{'literal' if kind == 'lit' else 'description'}{':twin-subwords' if sub == 2 else (':subword' if sub else '')}:{what}"
                 ctx.violation(kindname, {"grammar_hex": core.hexs(text2), "grammar": text2, "shell": sh,
                                          "strings": culprit, "what": what, "detail": detail})
 
@@ -230,6 +239,8 @@ def run(ctx, proof):
     sub_lits = lits if ctx.thorough() else lits[:120]
     explore(sub_lits, "lit", True, ["bash"], 1)
     explore(sub_lits, "lit", True, ["fish", "zsh", "pwsh"], 40)
+    # two same-shaped within-word expressions: the literal tables behind a shared table-reading function
+    explore(sub_lits, "lit", 2, core.SHELLS, 20)
     explore(descrs, "descr", False, ["fish", "zsh", "pwsh"], 30)
     ctx.extra["programs"] = ctx.evaluations
     ctx.extra["trusted_extra"] = [
@@ -243,7 +254,7 @@ def replay(ctx, proof, path):
         rp = json.load(f)
     items = rp["strings"]
     kind = "lit" if ":literal" in rp["kind"] else "descr"
-    sub = ":subword" in rp["kind"]
+    sub = 2 if ":twin-subwords" in rp["kind"] else (":subword" in rp["kind"])
     text, failures = run_group(ctx, items, kind, sub, [rp["shell"]])
     if failures:
         print(f"VIOLATION property={ctx.prop} replay={path}")
